@@ -15,5 +15,6 @@ def run(run, model):
     run.do(marker.report_rule, model, "C10.held-for-contracts", marker.MARKER_REGIONS, "every contract event occurs in state H")
     run.do(marker.body_rules, model)
     run.do(marker.key_rule, model)
+    marker.report_rule(run, model, "C11.release-on-all-exits", marker.MARKER_REGIONS, "no exit is reached with the marker held (a leaked marker would leave later, non re-entrant calls unchecked)", as_rule="C10.no-sticky")
     run.minimum("C10.own-release", 5, "two checker wrappers, constructor wrapper, two method wrappers")
     run.minimum("C10.key", 5)
